@@ -5,12 +5,12 @@ reg("C07",
               "Write Request, then restored), ownership probes (every connection tries a Prepare Write on every new state, state restored)",
     rule="state = byte image; transition = one ATT request through l2cap_input / one client_disconnected() / one encryption toggle; classes = distinct "
          "(event kind, attribute, offset/length class, link security, queue ownership relation, outcome) combinations observed",
-    bound="queue sizes S in {16,64}, 3 connections. full alphabet: 102 events per connection = Prepare(6 attributes: rw, second rw, read-only, requires_encryption, invalid handle, "
-          "write-handler value x offset {0,1,size,size+1} x length {0,1,max that fits,max+1}), Execute(0|1|2), Write, client_disconnected, toggle encryption - depth bound 5 "
-          "(quick) / 7 (thorough), cut by the deadline: the completed depth is reported per unit (measured on a heavily loaded 16 core machine: S=16 depth 4 quick / 5 thorough, S=64 depth 3 quick / 4 thorough). "
-          "reduced alphabet (11 events per connection: 6 prepares, Execute 0|1, Write, disconnect, toggle): depth bound 8 quick / 10 thorough (measured: S=16 6-8 quick / 10 thorough, S=64 5-6 quick / 7 thorough). "
+    bound="queue sizes S in {16,64}, 3 connections. full alphabet: 134 events per connection = Prepare(8 attributes: rw, second rw, read-only, requires_encryption, invalid handle, "
+          "write-handler value, requires_encryption write-handler value, CCCD of a requires_encryption notifying value x offset {0,1,size,size+1} x length {0,1,max that fits,max+1}), Execute(0|1|2), Write, client_disconnected, toggle encryption - depth bound 5 "
+          "(quick) / 7 (thorough), cut by the deadline: the completed depth is reported per unit (measured: S=16 depth 4 quick / 5 thorough, S=64 depth 3 quick / 3 thorough - the thorough runs end at the cap of 7 million states). "
+          "reduced alphabet (14 events per connection: 9 prepares covering every attribute kind, Execute 0|1, Write, disconnect, toggle): depth bound 8 quick / 10 thorough (measured: S=16 6 quick / 8 thorough, S=64 5 quick / 7 thorough). "
           "link layer world (real link_layer<server<shared_write_queue<64>>, llw::radio>, events CONNECT_IND by two centrals, 2 prepares, Execute 0|1, LL_TERMINATE_IND, "
-          "supervision timeout, empty event, advertising timeout): all sequences of length <= 7 quick / <= 9 thorough, cut by the deadline (measured 6 quick / 8 thorough)",
+          "supervision timeout, empty event, advertising timeout): all sequences of length <= 7 quick / <= 9 thorough, cut by the deadline (measured 7 quick / 9 thorough)",
     units=[dict(src="harness/C07_prepared_writes.cpp",
                 variants=[dict(name="q16", defs=["QUEUE=16"]), dict(name="q64", defs=["QUEUE=64"]),
                           dict(name="q16-lite", defs=["QUEUE=16", "LITE=1"]), dict(name="q64-lite", defs=["QUEUE=64", "LITE=1"])]),
@@ -26,7 +26,8 @@ reg("C07",
                  "Execute Write with flag 2 is rejected and leaves values and queue ownership untouched (tests pin error 0x04)",
                  "client_disconnected() is followed by constructing a fresh connection object at the same address (what a link layer does for the next connection)",
                  "toggle encryption switches between (unencrypted, no key) and (encrypted, unauthenticated key)",
-                 "the handler based value is a variable length blob behind free_write_blob_handler (write sets length = offset + size)",
+                 "the handler based values (one unprotected, one with requires_encryption) are variable length blobs behind free_write_blob_handler (write sets length = offset + size)",
+                 "CCCD reference: only a write at offset 0 changes the two configuration bits; client_disconnected() + fresh connection object clears them",
                  "units C07_prepared_writes-*: server level, the harness calls client_disconnected(); whether bluetoe's link layer does so is decided by unit C07_ll_disconnect",
                  "link layer world: no real time - elapsed time is what the link layer derives from the scheduled intervals; a supervision timeout is 'sim_timeout() until advertising restarts'"],
     design_ref="3/C07")
